@@ -160,6 +160,7 @@ class SimOracle(object):
         self.pending_grants = {}
         self.arrivals = {}           # (obj, side) -> [(time, pid)]
         self.pq_seq = 0
+        self.dropped_seq = {}        # object -> trace sequence number of the last end of a process that held it
         self.dropped_at = {}         # instant -> objects that an ending process held
         self.link_active = {lk: True for lk in self.sc.links}    # (cond, object, side) -> still subscribed
         self.traj = {}               # obj -> [(time, value, evno)] value after each event in which it changed
@@ -601,6 +602,7 @@ class SimOracle(object):
         # what it held must be offered to the waiters of those objects within this instant (C09)
         for ob in list(p.res) + [pl for pl, amt in p.pool.items() if amt > 0]:
             self.dropped_at.setdefault(T, set()).add(ob)
+            self.dropped_seq[ob] = self.seq_now
         p.res = set()
         p.pool = {}
         for n in p.notes:
@@ -915,6 +917,8 @@ class SimOracle(object):
                 if not (c.args[1:2] and c.args[1] in ("3", "4") and int(c.args[2]) < len(objnames)
                         and objnames[int(c.args[2])] == obj):
                     continue
+                if c.seq > self.dropped_seq.get(obj, -1):
+                    continue        # started waiting after the drop (later in the same event): it saw no signal
                 self.cls("cond-satisfied-by-drop-at-process-end")
             if not c.sat_seen.get(T):
                 c.sat_seen[T] = int(t[1])
